@@ -85,7 +85,7 @@ def run(ctx: Ctx):
         )
     ctx.assume("dask.array.reductions._tree_reduce, dask.array.blockwise, unify_chunks and the schedulers are external (assumed); exercised but not verified")
     ctx.trust("dask", "numpy", "pandas", "numpy_groupies", "numbagg", "z3 / cvc5")
-    return "other", ("Mixed: obligations proved over the real source carry the homomorphism/tree/plan parts; the end-to-end contract chunked == eager is a bounded stand-in. " + note)
+    return "other", ("Mixed: plan-consistency and reindex obligations are proved on the real source (the combines and the graph builder are not under contract); the end-to-end contract chunked == eager is a bounded stand-in. " + note)
 
 
 def _case_of(payload):
